@@ -101,9 +101,24 @@ def _split_tuple(st):
     if any(isinstance(t, (ast.Starred, ast.Tuple, ast.List)) for t in T):
         return None
     V = st.value
+    if isinstance(V, (ast.GeneratorExp, ast.ListComp)) and len(V.generators) == 1 and not V.generators[0].ifs and isinstance(V.generators[0].target, ast.Name) \
+            and isinstance(V.generators[0].iter, (ast.Tuple, ast.List)) and len(V.generators[0].iter.elts) == len(T) \
+            and all(isinstance(e, (ast.Name, ast.Constant)) for e in V.generators[0].iter.elts):
+        # a, b = (f(c) for c in (x, y))  ->  a, b = f(x), f(y)
+        var = V.generators[0].target.id
+        elts = []
+        for e in V.generators[0].iter.elts:
+            class S_(ast.NodeTransformer):
+                def visit_Name(self, n, e=e):
+                    if n.id == var and isinstance(n.ctx, ast.Load):
+                        return ast.copy_location(copy.deepcopy(e), n)
+                    return n
+            elts.append(S_().visit(copy.deepcopy(V.elt)))
+        V = ast.copy_location(ast.Tuple(elts=elts, ctx=ast.Load()), V)
     if isinstance(V, (ast.Tuple, ast.List)) and len(V.elts) == len(T) \
             and not any(isinstance(v, ast.Starred) for v in V.elts):
         stored = []
+        plain = True
         for t, v in zip(T, V.elts):
             reads = set(access_paths_in(v))
             if isinstance(t, (ast.Subscript, ast.Attribute)):
@@ -111,8 +126,10 @@ def _split_tuple(st):
                 if isinstance(t, ast.Subscript):
                     reads |= access_paths_in(t.slice)
             # a call on the right-hand side could read anything the earlier targets changed
-            if stored and any(isinstance(n, ast.Call) for n in ast.walk(v)):
+            # (a callee cannot see the caller's plain locals: only stores into objects matter)
+            if stored and not plain and any(isinstance(n, ast.Call) for n in ast.walk(v)):
                 return None
+            plain = plain and isinstance(t, ast.Name)
             # a later element must not read what an earlier target has just stored (the stored path or something below it)
             if any(r == s or r.startswith(s + ".") or r.startswith(s + "[") for s in stored for r in reads):
                 return None
@@ -1000,6 +1017,19 @@ def _block(stmts, fx, occ, top=False):
     # tuple assignments are split first so that a loop counter initialised in one (`flag, i = False, 0`) is visible
     pre = []
     for st in stmts:
+        if isinstance(st, ast.Assign) and len(st.targets) > 1 and all(access_path(t) is not None and _no_call(t) for t in st.targets):
+            # a = b = E: E is evaluated once and bound to every target. An immutable literal can simply be repeated;
+            # anything else is bound once and the other targets are made aliases of the first, which is what they are
+            STATS["chain_assign"] = STATS.get("chain_assign", 0) + 1
+            first = st.targets[0]
+            if _literal(st.value):
+                for t in st.targets:
+                    pre.append(_loc(ast.Assign(targets=[t], value=copy.deepcopy(st.value)), st))
+            else:
+                pre.append(_loc(ast.Assign(targets=[first], value=st.value), st))
+                for t in st.targets[1:]:
+                    pre.append(_loc(ast.Assign(targets=[t], value=_as_load_expr(first)), st))
+            continue
         if isinstance(st, ast.AnnAssign):
             # annotations of locals / attributes carry no behaviour: `x: T = E` is `x = E`, a bare `x: T` is nothing
             STATS["annot"] = STATS.get("annot", 0) + 1
